@@ -160,6 +160,45 @@ def _obs_start(self):
 ProtocolDispatcher.start = _obs_start
 
 
+# ------------------------------------------------------------------------------------------------ watchdog
+class Actor:
+    """A helper thread that runs the harness' calls into the real code, so that the harness thread can give up on them:
+    the real code has unbounded waits (`BlockSendInfo.wait`).  One thread serves many calls; a stuck one is abandoned."""
+
+    def __init__(self):
+        import queue
+        self.q = queue.SimpleQueue()
+        self.t = threading.Thread(target=self._loop, daemon=True)
+        self.t.start()
+
+    def _loop(self):
+        while True:
+            fn, done, box = self.q.get()
+            try:
+                fn()
+            except BaseException as exc:  # noqa: BLE001
+                box.append(exc)
+            done.set()
+
+    def submit(self, fn):
+        done, box = threading.Event(), []
+        self.q.put((fn, done, box))
+        return done, box
+
+
+_ACTOR: list = []
+
+
+def actor_submit(fn):
+    if not _ACTOR:
+        _ACTOR.append(Actor())
+    return _ACTOR[0].submit(fn)
+
+
+def actor_abandon():
+    _ACTOR.clear()
+
+
 # ------------------------------------------------------------------------------------------------ rig
 class Rig:
     """One real handler on an in-memory link."""
@@ -254,18 +293,9 @@ class Rig:
 
     def bounded(self, fn, what):
         """run an action of the harness thread under a watchdog: the real code has unbounded waits (`BlockSendInfo.wait`)"""
-        box = []
-
-        def run():
-            try:
-                fn()
-            except Exception as exc:  # noqa: BLE001
-                box.append(exc)
-
-        t = threading.Thread(target=run, daemon=True)
-        t.start()
-        t.join(WAIT)
-        if t.is_alive():
+        done, box = actor_submit(fn)
+        if not done.wait(WAIT):
+            actor_abandon()
             raise Stuck(what)
         if box:
             raise box[0]
@@ -294,17 +324,22 @@ class Rig:
         """Fire a fake timer in a helper thread.  True when the thread is left blocked in a send on a dead link."""
         timer.fired = True
         q0 = self.p._send_queue.qsize()
-        t = threading.Thread(target=timer.function, daemon=True)
-        t.start()
-        self.helpers.append(t)
+
+        def run():
+            try:
+                timer.function()
+            except secsgem.common.WrongSourceStateError:
+                pass  # recorded by the `_perform_transition` observer; a real Timer thread would print it and end
+
+        done, _ = actor_submit(run)
         end = time.monotonic() + WAIT
-        while t.is_alive():
+        while not done.wait(0.0005):
             if not self.link and self.p._send_queue.qsize() > q0:
-                time.sleep(0.002)  # the sender has queued its block and waits for a receiver thread that does not run
-                if t.is_alive():
+                if not done.wait(0.003):  # the sender has queued its block and waits for a receiver thread that does not run
+                    actor_abandon()
                     return True
-            time.sleep(0.0003)
             if time.monotonic() > end:
+                actor_abandon()
                 raise Stuck("timer callback")
         return False
 
@@ -342,10 +377,12 @@ class Rig:
         th._receiver_thread_trigger.set()
         mine = [(d, t) for d, t in DISPATCHERS if d is th]
         end = time.monotonic() + WAIT
-        while any(t.is_alive() for _, t in mine) and time.monotonic() < end:
-            th._stop_dispatcher_thread = True
-            th._dispatcher_thread_trigger.set()
-            time.sleep(0.0002)
+        for _, t in mine:
+            # each thread that ends resets the flag, so it is set again for every one of them
+            while t.is_alive() and time.monotonic() < end:
+                th._stop_dispatcher_thread = True
+                th._dispatcher_thread_trigger.set()
+                t.join(0.002)
         DISPATCHERS[:] = [(d, t) for d, t in DISPATCHERS if d is not th]
         for k in (id(self.h), id(self.h._callback_handler), id(self.h._communication_state)):
             RIGS.pop(k, None)
